@@ -179,6 +179,9 @@ pub struct Stats {
     pub player_sample_calls: u64,
     pub player_cache_hits: u64,
     pub visits: u64,
+    /// draws made (both sites); they feed the step budget too, so that a run-away loop that
+    /// samples but never reaches a decision node is stopped before its draw log eats the memory
+    pub draws: u64,
     pub cores_unknown_fired: u64,
     pub cores_override_fired: u64,
 }
@@ -280,7 +283,16 @@ pub fn chance_rng(vid: usize) -> Option<KeyedRng> {
     })
 }
 
+fn count_draw(c: &mut Ctx) -> bool {
+    c.stats.draws += 1;
+    c.step_budget != 0 && c.stats.draws > c.step_budget
+}
+
 pub fn chance_drawn(vid: usize, result: usize) -> usize {
+    let over = CTX.with(|c| count_draw(&mut c.borrow_mut()));
+    if over {
+        panic!("{}", STEP_BUDGET_MSG);
+    }
     CTX.with(|c| {
         let mut c = c.borrow_mut();
         if vid >= c.chance.len() {
@@ -338,6 +350,10 @@ pub fn player_rng(vid: usize) -> Option<KeyedRng> {
 }
 
 pub fn player_drawn(vid: usize, weights: &[f64], result: usize) -> usize {
+    let over = CTX.with(|c| count_draw(&mut c.borrow_mut()));
+    if over {
+        panic!("{}", STEP_BUDGET_MSG);
+    }
     CTX.with(|c| {
         let mut c = c.borrow_mut();
         if vid >= c.player.len() {
